@@ -147,6 +147,51 @@ impl ConfirmationActor {
     }
 }
 
+impl ConfirmationActor {
+    /// Broadcasts the confirmed events of a partition that have not been broadcast yet,
+    /// reading them from the database.
+    async fn broadcast_confirmed_from_database(
+        &mut self,
+        partition_id: PartitionId,
+        watermark: u64,
+    ) {
+        let Some(highest_confirmed_seq) = watermark.checked_sub(1) else {
+            return;
+        };
+        let next_to_broadcast = self.next_broadcast_seq.entry(partition_id).or_insert(0);
+        if *next_to_broadcast > highest_confirmed_seq {
+            return;
+        }
+        let broadcast_from = *next_to_broadcast;
+
+        let Ok(mut iter) = self
+            .database
+            .read_partition(partition_id, broadcast_from, IterDirection::Forward)
+            .await
+        else {
+            return;
+        };
+        'outer: while let Ok(Some(commits)) = iter.next_batch(DEFAULT_BATCH_SIZE).await {
+            for commit in commits {
+                for event in commit {
+                    let sequence = event.partition_sequence;
+                    if sequence > highest_confirmed_seq {
+                        break 'outer;
+                    }
+                    if sequence < broadcast_from {
+                        continue;
+                    }
+                    match self.broadcast_tx.send(event) {
+                        // No active subscribers: retry from here later
+                        Ok(0) | Err(_) => break 'outer,
+                        Ok(_) => *next_to_broadcast = sequence + 1,
+                    }
+                }
+            }
+        }
+    }
+}
+
 // Message types for different operations
 
 /// Update confirmation and broadcast confirmed events atomically
@@ -369,6 +414,13 @@ impl Message<UpdateConfirmation> for ConfirmationActor {
                 .unwrap_or(0);
 
             self.broadcast_confirmed_events(msg.partition_id, old_watermark, new_watermark);
+
+            // Nothing fills `pending_events` on this path (a replica learns about the
+            // confirmation after it stored the events), so read the newly confirmed events
+            // back from the database; otherwise subscribers of this node only receive
+            // them when some later write happens to trigger a broadcast.
+            self.broadcast_confirmed_from_database(msg.partition_id, new_watermark)
+                .await;
         }
 
         Ok(results)
